@@ -45,12 +45,19 @@ class Report:
     extra: Dict[str, Any] = field(default_factory=dict)
     assumptions: List[str] = field(default_factory=list)
     rules: Dict[str, str] = field(default_factory=dict)
+    instances: int = 0
+    _seen: Set = field(default_factory=set)
 
     # ------------------------------------------------------------------ recording
     def rule(self, rid: str, text: str) -> None:
         self.rules[rid] = text
 
     def ob(self, rule: str, key: str, ok: bool, where: str = "", detail: str = "", sample: Any = None) -> bool:
+        sig = (rule, key, bool(ok))
+        self.instances += 1
+        if sig in self._seen:
+            return bool(ok)
+        self._seen.add(sig)
         self.obligations.append(Obligation(rule, key, bool(ok), where, detail))
         if sample is not None and len(self.samples) < 60:
             self.samples.append(sample)
@@ -130,6 +137,7 @@ def write_evidence(rep: Report, project: Project, wall: float, known_list, new_l
         "in the current source; distinct = distinct (rule, key) pairs; obligations that matched no construct are not counted",
         "obligations": total,
         "discharged": discharged,
+        "rule_instances_evaluated": rep.instances,
         "per_rule": per_rule,
         "rules": rep.rules,
         "functions_analysed": sorted(rep.functions),
